@@ -71,9 +71,21 @@ inductive Pc where
                             -- the task still occupies its slot until the done-callback runs
   deriving DecidableEq, Repr
 
+/-- the instance still serves (or will serve) its stream: everything but `leaving` -/
 def Pc.live : Pc → Bool
+  | .pending => true
+  | .spawned => true
+  | .waiting => true
+  | .busy _ => true
+  | .checked => true
   | .leaving _ => false
-  | _ => true
+
+@[simp] theorem Pc.live_pending : Pc.live .pending = true := rfl
+@[simp] theorem Pc.live_spawned : Pc.live .spawned = true := rfl
+@[simp] theorem Pc.live_waiting : Pc.live .waiting = true := rfl
+@[simp] theorem Pc.live_busy (e : Ev) : Pc.live (.busy e) = true := rfl
+@[simp] theorem Pc.live_checked : Pc.live .checked = true := rfl
+@[simp] theorem Pc.live_leaving (f : Bool) : Pc.live (.leaving f) = false := rfl
 
 def upd {α : Type} {β : Type} [DecidableEq α] (f : α → β) (a : α) (b : β) : α → β :=
   fun x => if x = a then b else f x
@@ -288,16 +300,27 @@ def Quiescent (f : State → Label → Option State) (s : State) : Prop :=
 /-- the event (if any) being processed right now for key `k`: what was started but not finished -/
 def inflight (s : State) (k : Key) : List Ev := (s.started k).drop (s.processed k).length
 
-/-- events of the backlog of `k` ([] when there is no stream entry) -/
-def backlogEvs (s : State) (k : Key) : List Ev :=
-  match s.streams k with
+/-- raw events of an optional backlog ([] when there is no stream entry) -/
+def backlogOf : Option (List Item) → List Ev
   | some b => evs b
   | none => []
 
+@[simp] theorem backlogOf_none : backlogOf none = [] := rfl
+@[simp] theorem backlogOf_some (b : List Item) : backlogOf (some b) = evs b := rfl
+
 /-- the event in the watcher's hand, if it belongs to `k` -/
-def handEvs (s : State) (k : Key) : List Ev :=
-  match s.hand with
-  | some (k', e) => if k' = k then [e] else []
-  | none => []
+def handOf : Option (Key × Ev) → Key → List Ev
+  | some (k', e), k => if k' = k then [e] else []
+  | none, _ => []
+
+@[simp] theorem handOf_none (k : Key) : handOf none k = [] := rfl
+@[simp] theorem handOf_some (k' : Key) (e : Ev) (k : Key) :
+    handOf (some (k', e)) k = if k' = k then [e] else [] := rfl
+
+/-- events of the backlog of `k` -/
+def backlogEvs (s : State) (k : Key) : List Ev := backlogOf (s.streams k)
+
+/-- the event in the watcher's hand, if it belongs to `k` -/
+def handEvs (s : State) (k : Key) : List Ev := handOf s.hand k
 
 end Kopf.C01
